@@ -91,6 +91,10 @@ LEAVES = [
      [P("fut.done()", "fut_done", "bool")], "bool", {}),
     ("Shutdown", "resolve_all_guarded", "_utils/asyncio.py", "_resolve_all_futures_to_none", ("has_call", "_set_future_none_if_not_done"), [], "bool", {}),
     ("Shutdown", "waiter_cancels_handle", "_utils/asyncio.py", "wait_for_future_set_or_timeout", ("has_call", "handle.cancel"), [], "bool", {}),
+    # AsyncEngine._async_setup: after the endpoints are created -- does start-up look at `zc.done` (an instance closed meanwhile)?
+    # optional: absent from the tree without the repair of finding R3-C17-a (notes/fixes/R3-C17-a.diff)
+    ("Shutdown", "startup_closes_when_done", "_engine.py", "AsyncEngine._async_setup", ("if", "self.zc.done", 0),
+     [P("self.zc.done", "done", "bool")], "bool", {"optional": True}),
     ("Shutdown", "started", "_core.py", "Zeroconf.started", ("ret",),
      [P("self.done", "done", "bool"), P("self.engine.running_event", "has_event", "bool"),
       P("self.engine.running_event.is_set()", "is_set", "bool")], "bool", {}),
